@@ -324,7 +324,7 @@ pub fn property() -> Property {
                 }),
                 quick: q,
                 thorough: t,
-                opts: SubOpts { max_shards: 8, isolate: true, hang_is_violation: true, case_budget_s: 30, max_shrink_iters: 60, ..SubOpts::default() },
+                opts: SubOpts { max_shards: 8, isolate: true, hang_is_violation: true, case_budget_s: 20, max_shrink_iters: 60, ..SubOpts::default() },
             }
             .boxed(),
         );
